@@ -680,6 +680,9 @@ func (g *gen) generate() {
 	// 8. subject identifiers that are not DIDs
 	g.runAll(g.generateNonDID(schs), func(int) bool { return true })
 
+	// 9. one serialized schema per subset of the four data slots
+	g.runAll(g.generateSlotSubsets(), func(int) bool { return true })
+
 	// observations that are not failures (readings recorded in coq/Claim/README_Binding.md)
 	var optAcc, optAll, idAcc, o7rej, e2eOpt int
 	for _, r := range g.recs {
